@@ -160,6 +160,7 @@ func (con *Connection) Write(b []byte) (n int, err error) {
 // HAP does not allow notifications in the middle of a response: when a request is being
 // handled on the connection, the notification is written after the response is complete.
 func (con *Connection) WriteEvent(b []byte) (int, error) {
+	verifBeforeLock(&con.eventMutex)
 	con.eventMutex.Lock()
 	defer con.eventMutex.Unlock()
 
@@ -174,6 +175,7 @@ func (con *Connection) WriteEvent(b []byte) (int, error) {
 // SetBusy marks the connection as handling a request (true), or as idle again (false).
 // Notifications which were kept back while the connection was busy are written now.
 func (con *Connection) SetBusy(busy bool) {
+	verifBeforeLock(&con.eventMutex)
 	con.eventMutex.Lock()
 	defer con.eventMutex.Unlock()
 
